@@ -108,6 +108,8 @@ def diff_episode(x: Dict, y: Dict) -> Optional[Tuple[str, str]]:
             return ("obs", f"step {i}: observations differ")
         if s["reward"] != t["reward"]:
             return ("reward", f"step {i}: {s['reward']} vs {t['reward']}")
+        if s.get("masks") != t.get("masks"):
+            return ("action-mask", f"step {i}: action masks differ")
     return None
 
 
